@@ -27,6 +27,25 @@ Proof.
     + destruct (is_ws (peek s1)); cbn [rest wss errs]; auto.
 Qed.
 
+(* p.peek after an advance outside a whitespace-sensitive context: the token after the current one, blanks skipped *)
+Definition peek_of (q : list token) : token := if is_ws (look1 q) then look2 q else look1 q.
+
+Lemma advance_peek st t rest' :
+  is_wss st = false -> rest st = t :: rest' -> peek (advance st) = peek_of (skip1 rest').
+Proof.
+  intros W Hr. unfold advance. set (s1 := advance_wss st).
+  assert (R1 : rest s1 = rest') by (unfold s1; rewrite rest_advance_wss, Hr; reflexivity).
+  assert (P1 : peek s1 = look1 rest') by (unfold s1, advance_wss; cbn [peek]; rewrite Hr; reflexivity).
+  assert (W1 : is_wss s1 = false) by exact W. rewrite W1.
+  assert (H2 : rest (advance_if_ws s1) = skip1 rest' /\ peek (advance_if_ws s1) = look1 (skip1 rest')).
+  { unfold advance_if_ws, cur. rewrite R1. unfold skip1. destruct rest' as [|t2 r2].
+    - cbn [look0 hd]. change (is_ws tEOF) with false. auto.
+    - cbn [look0 hd]. destruct (is_ws t2); [|auto]. split; [rewrite rest_advance_wss, R1; reflexivity|].
+      unfold advance_wss. cbn [peek]. rewrite R1. reflexivity. }
+  destruct H2 as [H2 H3]. unfold peek_of. rewrite H3.
+  destruct (is_ws (look1 (skip1 rest'))); cbn [peek]; [rewrite H2; reflexivity | exact H3].
+Qed.
+
 Section Stmts.
   Variable B : benv.
   Hypothesis BT : forall s t n, b_tyerr B s t n = false.   (* the typing oracle is silent: types are not modelled *)
@@ -142,12 +161,28 @@ Section Stmts.
     destruct (advance_skip1 (cs s) (mk T_NL) r Hw' Hr Hn) as (A1 & A2 & A3). rewrite A1, A2, A3. auto.
   Qed.
 
+  Definition peek_ok (s : pst) (r : list token) : Prop := peek (cs s) = peek_of r.
+
+  Lemma apnl_peek s r e : at_toks s (mk T_NL :: r) e -> peek_ok (apnl s) (skip1 r).
+  Proof.
+    intros (Hr & Hw & He). unfold apnl, upd, peek_ok. cbn [with_cs cs]. cbn [apnl_loop].
+    unfold cur_t, cur. rewrite Hr. cbn [look0 hd ttype mk].
+    assert (Hw' : is_wss (cs s) = false) by (unfold is_wss; rewrite Hw; reflexivity).
+    exact (advance_peek (cs s) (mk T_NL) r Hw' Hr).
+  Qed.
+
+  Lemma adv_peek s t r e : at_toks s (t :: r) e -> peek_ok (adv s) (skip1 r).
+  Proof.
+    intros (Hr & Hw & He). assert (Hw' : is_wss (cs s) = false) by (unfold is_wss; rewrite Hw; reflexivity).
+    exact (advance_peek (cs s) t r Hw' Hr).
+  Qed.
+
   (* x := v *)
   Theorem inferred_decl_roundtrip lvl s x v r e :
     ident_text x = true -> decl_ok x s -> top_ok (env_of B s) v ->
     at_toks s (toks_of_pieces (fmt_stmt fx lvl (FmtAst.SInferredDecl x v [])) ++ mk T_NL :: r) e ->
     is_ws (look0 (skip1 r)) = false ->
-    exists s', parse_inferred_decl_stmt B s = Ok (Some (Parser.SInferredDecl x (fexpr_tree v))) s' /\ at_toks s' (skip1 r) e.
+    exists s', parse_inferred_decl_stmt B s = Ok (Some (Parser.SInferredDecl x (fexpr_tree v))) s' /\ at_toks s' (skip1 r) e /\ peek_ok s' (skip1 r).
   Proof.
     intros Hx (D1 & D2 & D3 & D4) Hv Hat Hn.
     cbn [fmt_stmt] in Hat. unfold write_comment in Hat. cbn [is_empty app] in Hat. rewrite app_nil_r in Hat.
@@ -184,7 +219,7 @@ Section Stmts.
     assert (A4 : at_toks s3 (mk T_NL :: r) e).
     { unfold s3, scope_set. rewrite D4. destruct (scs s2); [exact A3|]. unfold at_toks, with_scs. cbn [cs]. exact A3. }
     rewrite (assert_eol_nl s3 r e A4).
-    eexists. split; [reflexivity|]. apply apnl_nl; auto.
+    eexists. split; [reflexivity|]. split; [apply apnl_nl | eapply apnl_peek]; eauto.
   Qed.
 
   (* break *)
@@ -192,12 +227,12 @@ Section Stmts.
     in_loop s = true ->
     at_toks s (toks_of_pieces (fmt_stmt fx lvl (FmtAst.SBreak [])) ++ mk T_NL :: r) e ->
     is_ws (look0 (skip1 r)) = false ->
-    exists s', parse_break_stmt s = Ok (Some Parser.SBreak) s' /\ at_toks s' (skip1 r) e.
+    exists s', parse_break_stmt s = Ok (Some Parser.SBreak) s' /\ at_toks s' (skip1 r) e /\ peek_ok s' (skip1 r).
   Proof.
     intros Hl Hat Hn. change (toks_of_pieces (fmt_stmt fx lvl (FmtAst.SBreak [])) ++ mk T_NL :: r) with (mk T_BREAK :: mk T_NL :: r) in Hat.
     unfold parse_break_stmt. rewrite Hl.
     assert (A1 : at_toks (adv s) (mk T_NL :: r) e) by (apply (adv_at s (mk T_BREAK) (mk T_NL :: r) e Hat); reflexivity).
-    rewrite (assert_eol_nl (adv s) r e A1). eexists. split; [reflexivity|]. apply apnl_nl; auto.
+    rewrite (assert_eol_nl (adv s) r e A1). eexists. split; [reflexivity|]. split; [apply apnl_nl | eapply apnl_peek]; eauto.
   Qed.
 
   Lemma sc_ret_mark m l :
@@ -224,7 +259,7 @@ Section Stmts.
     has_ret s = true -> top_ok (env_of B s) v ->
     at_toks s (toks_of_pieces (fmt_stmt fx lvl (FmtAst.SReturn (Some v) [])) ++ mk T_NL :: r) e ->
     is_ws (look0 (skip1 r)) = false ->
-    exists s', parse_return_stmt B s = Ok (Some (Parser.SReturn (Some (fexpr_tree v)))) s' /\ at_toks s' (skip1 r) e.
+    exists s', parse_return_stmt B s = Ok (Some (Parser.SReturn (Some (fexpr_tree v)))) s' /\ at_toks s' (skip1 r) e /\ peek_ok s' (skip1 r).
   Proof.
     intros Hret Hv Hat Hn.
     cbn [fmt_stmt] in Hat. unfold write_comment in Hat. cbn [is_empty app] in Hat. rewrite app_nil_r in Hat.
@@ -252,7 +287,7 @@ Section Stmts.
     { unfold p_toplevel, expr_call in P. destruct (parse_toplevel _ _ _ _) as [[a c]|]; [|discriminate]. inversion P; subst.
       rewrite (proj1 (ret_collect (adv s) c)). exact Hret. }
     rewrite Hs2. cbn [negb]. unfold tyerr_s. rewrite BT.
-    eexists. split; [reflexivity|]. apply apnl_nl; auto.
+    eexists. split; [reflexivity|]. split; [apply apnl_nl | eapply apnl_peek]; eauto.
   Qed.
 
   (* a bare return inside a procedure or handler *)
@@ -260,7 +295,7 @@ Section Stmts.
     has_ret s = true -> ret_value s = false ->
     at_toks s (toks_of_pieces (fmt_stmt fx lvl (FmtAst.SReturn None [])) ++ mk T_NL :: r) e ->
     is_ws (look0 (skip1 r)) = false ->
-    exists s', parse_return_stmt B s = Ok (Some (Parser.SReturn None)) s' /\ at_toks s' (skip1 r) e.
+    exists s', parse_return_stmt B s = Ok (Some (Parser.SReturn None)) s' /\ at_toks s' (skip1 r) e /\ peek_ok s' (skip1 r).
   Proof.
     intros Hret Hrv Hat Hn.
     change (toks_of_pieces (fmt_stmt fx lvl (FmtAst.SReturn None [])) ++ mk T_NL :: r) with (mk T_RETURN :: mk T_NL :: r) in Hat.
@@ -270,7 +305,7 @@ Section Stmts.
     { destruct A1 as (R1 & _). unfold is_at_eol, cur_t, cur. rewrite R1. reflexivity. }
     rewrite Hbare. change (has_ret (adv s)) with (has_ret s). change (ret_value (adv s)) with (ret_value s).
     rewrite Hret, Hrv. cbn [negb].
-    eexists. split; [reflexivity|]. apply apnl_nl; auto.
+    eexists. split; [reflexivity|]. split; [apply apnl_nl | eapply apnl_peek]; eauto.
   Qed.
 
   (* the environment the expression parser sees is read off p.funcs *)
@@ -289,7 +324,7 @@ Section Stmts.
     Forall (item_ok (env_of B s) true) args ->
     at_toks s (toks_of_pieces (fmt_stmt fx lvl (FmtAst.SCall n args [])) ++ mk T_NL :: r) e ->
     is_ws (look0 (skip1 r)) = false ->
-    exists s', parse_call_stmt B s = Ok (Some (Parser.SCallStmt (TCall n (map fexpr_tree args)))) s' /\ at_toks s' (skip1 r) e.
+    exists s', parse_call_stmt B s = Ok (Some (Parser.SCallStmt (TCall n (map fexpr_tree args)))) s' /\ at_toks s' (skip1 r) e /\ peek_ok s' (skip1 r).
   Proof.
     intros Hn Hfi Har Hall Hat Hnext.
     cbn [fmt_stmt] in Hat. unfold write_comment in Hat. cbn [is_empty] in Hat. rewrite app_nil_r in Hat.
@@ -318,6 +353,121 @@ Section Stmts.
     rewrite P.
     assert (A3 : at_toks (collect s c) (mk T_NL :: r) e).
     { apply collect_at; auto; [rewrite Q2; exact Hw | rewrite Q3; exact He]. }
-    rewrite (assert_eol_nl _ r e A3). eexists. split; [reflexivity|]. apply apnl_nl; auto.
+    rewrite (assert_eol_nl _ r e A3). eexists. split; [reflexivity|]. split; [apply apnl_nl | eapply apnl_peek]; eauto.
+  Qed.
+
+  (* x:T *)
+  Theorem typed_decl_roundtrip lvl s x t ty r e :
+    ident_text x = true -> fty_ty t = Some ty -> decl_ok x s ->
+    at_toks s (toks_of_pieces (fmt_stmt fx lvl (FmtAst.STypedDecl x t [])) ++ mk T_NL :: r) e ->
+    is_ws (look0 (skip1 r)) = false ->
+    exists s', parse_typed_decl_stmt B s = Ok (Some (Parser.STypedDecl x (Some ty))) s' /\ at_toks s' (skip1 r) e /\ peek_ok s' (skip1 r).
+  Proof.
+    intros Hx Hty (D1 & D2 & D3 & D4) Hat Hn.
+    cbn [fmt_stmt] in Hat. unfold write_comment in Hat. cbn [is_empty] in Hat. rewrite app_nil_r in Hat.
+    unfold write_decl in Hat. rewrite toks_app in Hat. cbn [toks_of_pieces flat_map tok_of_piece app] in Hat.
+    rewrite (ident_text_spec x Hx) in Hat. change (tok_of_text k_colon) with (mk T_COLON) in Hat.
+    fold (toks_of_pieces (fmt_type t)) in Hat. rewrite (toks_fmt_type t ty Hty) in Hat.
+    destruct Hat as (Hr & Hw & He).
+    unfold parse_typed_decl_stmt, parse_typed_decl.
+    assert (Pa : passert T_IDENT s = (true, s)).
+    { unfold passert, assert_token, cur_t, cur. rewrite Hr. cbn. destruct s; reflexivity. }
+    rewrite Pa. cbn [snd]. unfold cur. rewrite Hr. cbn [app look0 hd tlit ident_tok].
+    assert (Hth : is_ws (look0 (render_ty ty ++ mk T_NL :: r)) = false) by (destruct ty; reflexivity).
+    assert (A1 : at_toks (adv s) (mk T_COLON :: render_ty ty ++ mk T_NL :: r) e).
+    { apply (adv_at s (ident_tok x) (mk T_COLON :: render_ty ty ++ mk T_NL :: r) e); [split; auto|reflexivity]. }
+    assert (A2 : at_toks (adv (adv s)) (render_ty ty ++ mk T_NL :: r) e).
+    { assert (Hs : skip1 (render_ty ty ++ mk T_NL :: r) = render_ty ty ++ mk T_NL :: r) by (destruct ty; reflexivity).
+      rewrite <- Hs. apply (adv_at (adv s) (mk T_COLON) (render_ty ty ++ mk T_NL :: r) e A1). rewrite Hs. exact Hth. }
+    (* parseType *)
+    unfold p_type, expr_call. destruct A2 as (R2 & W2 & E2).
+    assert (W2' : is_wss (cs (adv (adv s))) = false) by (unfold is_wss; rewrite W2; reflexivity).
+    assert (Hfu : ty_size ty <= efuel (cs (adv (adv s)))).
+    { pose proof (ty_size_le ty). unfold efuel, here. rewrite R2, app_length. lia. }
+    rewrite (parse_type_spec ty (cs (adv (adv s))) false (mk T_NL :: r) _ R2 W2' eq_refl Hfu).
+    destruct (consume_ty_spec ty (cs (adv (adv s))) false (mk T_NL :: r) R2 W2' eq_refl) as (C1 & C2 & C3).
+    set (c := consume_ty ty (cs (adv (adv s)))) in *.
+    assert (A3 : at_toks (collect (adv (adv s)) c) (mk T_NL :: r) e).
+    { apply collect_at; auto; [rewrite C2; exact W2 | rewrite C3; exact E2]. }
+    set (s2 := collect (adv (adv s)) c) in *.
+    assert (Hvd : validate_var_decl B x (pos s) false s2 = (true, s2)).
+    { unfold validate_var_decl. rewrite D1.
+      assert (L : in_local x s2 = false) by (unfold s2; rewrite in_local_collect; exact D2). rewrite L.
+      assert (Fn : is_func x s2 = false) by (unfold is_func in *; unfold s2; rewrite fns_collect; exact D3). rewrite Fn.
+      cbn [negb andb]. rewrite D4. reflexivity. }
+    rewrite Hvd.
+    set (s3 := scope_set x _ s2).
+    assert (A4 : at_toks s3 (mk T_NL :: r) e).
+    { unfold s3, scope_set. rewrite D4. destruct (scs s2); [exact A3|]. unfold at_toks, with_scs. cbn [cs]. exact A3. }
+    rewrite (assert_eol_nl s3 r e A4).
+    eexists. split; [reflexivity|]. split; [apply apnl_nl | eapply apnl_peek]; eauto.
+  Qed.
+
+  (* marking a variable as read does not change the names in scope *)
+  Lemma names_mark_in n l : map v_name (mark_in n l) = map v_name l.
+  Proof. induction l as [|v r IH]; [reflexivity|]. cbn [mark_in]. destruct (str_eqb (v_name v) n); cbn [map v_name]; [reflexivity | rewrite IH; reflexivity]. Qed.
+
+  Lemma visible_mark n l : visible (mark_scopes n l) = visible l.
+  Proof.
+    induction l as [|sc r IH]; [reflexivity|]. cbn [mark_scopes]. destruct (has_var n (sc_vars sc)).
+    - unfold visible. cbn [flat_map sc_vars]. rewrite names_mark_in. reflexivity.
+    - unfold visible in *. cbn [flat_map]. rewrite IH. reflexivity.
+  Qed.
+
+  Lemma env_of_mark n s : env_of B (mark n s) = env_of B s.
+  Proof. unfold env_of, mark. cbn [with_scs scs fns]. rewrite visible_mark. reflexivity. Qed.
+
+  Lemma with_cs_id s : with_cs s (cs s) = s.
+  Proof. destruct s; reflexivity. Qed.
+
+  Lemma passert_ok t s : ct s = t -> passert t s = (true, s).
+  Proof.
+    intro H. unfold passert, assert_token. unfold ct in H. rewrite H.
+    assert (Hb : toktype_beq t t = true) by (apply toktype_beq_eq; reflexivity). rewrite Hb. rewrite with_cs_id. reflexivity.
+  Qed.
+
+  (* x = v   (the target is a variable; index and dot targets are not covered) *)
+  Theorem assign_var_roundtrip lvl s x v r e :
+    ident_text x = true -> is_func x s = false -> scope_get x s = true -> top_ok (env_of B s) v ->
+    at_toks s (toks_of_pieces (fmt_stmt fx lvl (FmtAst.SAssign (FVar x) v [])) ++ mk T_NL :: r) e ->
+    is_ws (look0 (skip1 r)) = false ->
+    exists s', parse_assign_stmt B s = Ok (Some (Parser.SAssign (TVar x) (fexpr_tree v))) s' /\ at_toks s' (skip1 r) e /\ peek_ok s' (skip1 r).
+  Proof.
+    intros Hx Hnf Hsg Hv Hat Hn.
+    cbn [fmt_stmt fmt_expr] in Hat. unfold write_comment in Hat. cbn [is_empty app] in Hat. rewrite app_nil_r in Hat.
+    change (T x :: Sp :: T k_assign :: Sp :: fmt_expr fx lvl v) with ([T x; Sp; T k_assign; Sp] ++ fmt_expr fx lvl v) in Hat.
+    rewrite toks_app in Hat. cbn [toks_of_pieces flat_map tok_of_piece app] in Hat. rewrite (ident_text_spec x Hx) in Hat.
+    change (tok_of_text k_assign) with (mk T_ASSIGN) in Hat.
+    set (vt := toks_of_pieces (fmt_expr fx lvl v)) in *.
+    assert (Hvhead : exists t0 ts, vt = t0 :: ts /\ is_ws t0 = false).
+    { unfold vt. destruct Hv as [Hit|(n & args & -> & Hn' & _)].
+      - destruct (item_rt (env_of B s) (env_no_tyerr s) eq_refl fx false lvl v Hit) as [_ Hhd].
+        destruct (toks_of_pieces (fmt_expr fx lvl v)) as [|t0 ts]; [contradiction|]. exists t0, ts. split; [reflexivity|].
+        cbn [head_ok] in Hhd. unfold is_ws. destruct (ttype t0); try contradiction; reflexivity.
+      - rewrite (toks_call fx lvl n args Hn'). eexists; eexists. split; reflexivity. }
+    destruct Hvhead as (t0 & ts & Hvt & Ht0).
+    assert (Hat0 := Hat). destruct Hat as (Hr & Hw & He).
+    unfold parse_assign_stmt. unfold cur. rewrite Hr. cbn [look0 hd tlit ident_tok]. rewrite Hnf.
+    unfold parse_assign_target. unfold cur. rewrite Hr. cbn [look0 hd tlit ident_tok].
+    assert (Hus : str_eqb x (s_ "_"%string) = false).
+    { unfold scope_get in Hsg. apply andb_true_iff in Hsg as [H _]. apply negb_true_iff in H. exact H. }
+    rewrite Hus. change (scope_get x (adv s)) with (scope_get x s). rewrite Hsg. cbn [negb].
+    assert (A1 : at_toks (adv s) (mk T_ASSIGN :: mk T_WS :: vt ++ mk T_NL :: r) e).
+    { apply (adv_at s (ident_tok x) (mk T_WS :: mk T_ASSIGN :: mk T_WS :: vt ++ mk T_NL :: r) e Hat0). reflexivity. }
+    assert (A1m : at_toks (mark x (adv s)) (mk T_ASSIGN :: mk T_WS :: vt ++ mk T_NL :: r) e) by exact A1.
+    (* the target loop stops at "=" *)
+    assert (Hct : ct (mark x (adv s)) = T_ASSIGN).
+    { destruct A1m as (R1 & _). unfold ct, cur_t, cur. rewrite R1. reflexivity. }
+    cbn [assign_target_loop]. rewrite Hct.
+    assert (Pa : passert T_ASSIGN (mark x (adv s)) = (true, mark x (adv s))).
+    { apply passert_ok, Hct. }
+    rewrite Pa. cbn [snd].
+    assert (A2 : at_toks (adv (mark x (adv s))) (vt ++ mk T_NL :: r) e).
+    { apply (adv_at (mark x (adv s)) (mk T_ASSIGN) (mk T_WS :: vt ++ mk T_NL :: r) e A1m). cbn [skip1 is_ws ttype mk]. rewrite Hvt. exact Ht0. }
+    assert (Hv' : top_ok (env_of B (adv (mark x (adv s)))) v).
+    { change (env_of B (adv (mark x (adv s)))) with (env_of B (mark x (adv s))). rewrite env_of_mark. exact Hv. }
+    destruct (p_toplevel_value lvl (adv (mark x (adv s))) v r e Hv' A2) as (s2 & P & A3 & _ & _). rewrite P.
+    unfold tyerr_s. rewrite BT. rewrite (assert_eol_nl s2 r e A3).
+    eexists. split; [reflexivity|]. split; [apply apnl_nl | eapply apnl_peek]; eauto.
   Qed.
 End Stmts.
